@@ -50,11 +50,16 @@ def condMatches (c : Cond) (v : String) : Bool :=
     i = vs.length || vs.getD i "" ≠ v
   | .other => false
 
+/-- `Tags.FindTag(key) != nil` -/
+def has : Tags → String → Bool
+  | [], _ => false
+  | (k, _) :: rest, key => k == key || has rest key
+
 def ruleLoop (tags : Tags) : List Cond → Bool
   | [] => false
   | c :: rest =>
     let v := find tags c.key
-    if v = "" || v = "no" then ruleLoop tags rest
+    if !(has tags c.key) || v = "no" then ruleLoop tags rest
     else if condMatches c v then true else ruleLoop tags rest
 
 /-- `Way.Polygon` on the way's node ids and tags -/
